@@ -12,7 +12,7 @@ occurrences gives the same per-string result; re-checked every run).
 import binascii, re
 from vf import core
 
-THM = ["YaraModel.Thm.C05"]
+THM = ["YaraModel.Thm.C05", "YaraModel.Thm.AcCert"]
 MANIFEST = dict(
     technique="Lean 4 theorem (per-string result is a function of the string and the buffer for EVERY candidate stage meeting the automaton contract) + alone-vs-company / permutation / prefix / source-split differential on the real compiler and scanner",
     text="proof: Thm/C05.lean proves that the modelled per-string result (offsets, admissible lengths/keys) is the same for ANY two candidate stages that each report exactly the occurrences "
@@ -132,7 +132,7 @@ def run(tier, replay=None):
         full = "\n".join(x["text"] for x in rules)
         for bi, buf in enumerate(bufs):
             ref = "g%d_b%d_full" % (g, bi)
-            lines.append("%s src=%s buf=%s" % (ref, hx(full), hx(buf)))
+            lines.append("%s src=%s %sbuf=%s" % (ref, hx(full), "atoms=1 cands=1 actab=1 " if bi == 0 else "", hx(buf)))
             for x in rules:
                 i = x["idx"]
                 alone = "\n".join(rules[k]["text"] for k in closure(rules, i))
@@ -180,6 +180,25 @@ def run(tier, replay=None):
     if rc != 0:
         chk.violation("harness_crash.json", {"kind": "crash/sanitizer", "rc": rc, "stderr": err, "harness": "h_scan"})
         found = True
+    # Aho-Corasick certificate on the SHARED automaton of every company (Thm/AcCert: candidates exact for every buffer)
+    acl = []
+    for l in outs:
+        t = {x.split("=", 1)[0]: x.split("=", 1)[1] for x in l.split()[2:] if "=" in x}
+        if "act" in t and "atoms" in t:
+            atoms = "-" if t["atoms"] == "-" else ",".join("%s:%s:%s" % (a.split(":")[0], a.split(":")[1], a.split(":")[3]) for a in t["atoms"].split(","))
+            bufhex = [x for x in lines if x.startswith(l.split(" ", 1)[0] + " ")][0].split("buf=")[1]
+            acl.append("%s atoms=%s act=%s acm=%s acp=%s buf=%s cands=%s" % (l.split(" ", 1)[0], atoms, t["act"], t["acm"], t["acp"], bufhex, t["cands"]))
+    ac_ok = 0
+    if lres.get("driver_ok") and acl:
+        acout, _, _ = core.run_parallel([core.driver_path(), "ac"], acl)
+        for i, l in enumerate(acout):
+            if "cert=1" in l and "scan=same" in l:
+                ac_ok += 1
+            elif i < 50:
+                chk.violation("ac_cert_%s.json" % l.split(" ", 1)[0], {"kind": "Aho-Corasick certificate fails on the shared automaton of a company (or table-driven scan model != real candidates)",
+                                                                     "driver": l, "engine": "ac"}, no_input=True)
+                found = True
+    chk.cov["ac_certificate"] = {"company_tables_checked": len(acl), "cert_ok": ac_ok}
     nviol, hist, nontriv = 0, {}, set()
     lm = {l.split(" ", 1)[0]: l for l in lines}
     for g, i, variant, lid, ref in plan:
